@@ -530,6 +530,11 @@ class Sym:
                 o = o.item()
             else:
                 return NotImplemented
+        if isinstance(o, (float, np.floating)) and math.isinf(o):
+            # every symbolic real is finite
+            pos = o > 0
+            r = {"lt": pos, "le": pos, "gt": not pos, "ge": not pos, "eq": False, "ne": True}[op]
+            return SymBool(TRUE if r else FALSE)
         try:
             on = lift(o)
         except TypeError:
